@@ -32,7 +32,20 @@ def r123(ctx):
         ctx.check(P, "C11.R1-R3", "Vec<Node> size = length prefix + every node", good, "encoded_size_usize(vec.len()) + sum of node sizes", "vec_encoded_size does not add the length prefix of vec.len() and each node's size")
 
 
-RULES = [r123]
+def r4(ctx):
+    """decoding never panics in crate code: every panic-capable construct reachable from the decode
+    functions of the wire types (and Node::new) is discharged; compact_encoding's primitives are
+    trusted to return Err on short input"""
+    from . import c09
+    fns = codec_fns(ctx)
+    entries = [fns[ty]["decode"].body.name for ty in REF if ty in fns and "decode" in fns[ty]] + ["common::node::Node::new"]
+    if len(entries) < 9:
+        ctx.missing(P, "C11.R4", "decode functions of the wire types", "found %d (floor 9)" % len(entries))
+        return
+    c09.panic_rule(ctx, P, "C11.R4", entries)
+
+
+RULES = [r123, r4]
 EXPLANATION = ("C11 (wire messages round-trip and follow the compact-encoding layout): for each of the eight protocol types decides, on the MIR of the three functions of its "
                "CompactEncoding impl (macro and hand-written forms alike), that encode writes the reference field sequence with the reference byte shapes (varint / length-prefixed bytes / "
                "32 fixed bytes / node list), that decode consumes the same shapes in the same order and puts the k-th value into the k-th encoded field, and that encoded_size sums exactly "
